@@ -126,6 +126,7 @@ type SState struct {
 	CatDropAt    map[string][2]int `json:"cat_drop_at,omitempty"`    // collection id -> (incarnation, step) at which the source catalog began to show it as dropping
 	PartialBar   map[string]bool   `json:"partial_bar,omitempty"`    // "target|partition id" -> the partition's barrier was sized while fewer than all shard streams of its collection were registered
 	PubAt        map[string][2]int `json:"pub_at,omitempty"`         // "p<partition id>" -> (incarnation, step) at which its drop message was published at the source
+	HistAtOp     int               `json:"hist_at_op,omitempty"`     // history position when the latest operator request was answered
 	Discarded    map[string][2]int `json:"discarded,omitempty"`      // "task|event type|collection|partition" -> (incarnation, step): reader event thrown away by the event loop (hook H19)
 	FirstReg     map[string][2]int `json:"first_reg,omitempty"`      // domain key -> (incarnation, step) of the first registration of that stream
 }
@@ -1457,7 +1458,8 @@ func (r *RigS) run() {
 				idx := st.OpPos
 				gate := sc.Ops[idx].Gate
 				isOpen, hold := r.gateState(&sc.Ops[idx], as)
-				if gate == "" || isOpen || st.HistPos >= len(sc.History) {
+				waited := sc.Ops[idx].AfterHist == 0 || st.HistPos >= len(sc.History) || st.HistPos >= st.HistAtOp+sc.Ops[idx].AfterHist
+				if waited && (gate == "" || isOpen || st.HistPos >= len(sc.History)) {
 					w := 8
 					if gate != "" && isOpen {
 						w = 60
@@ -1465,6 +1467,9 @@ func (r *RigS) run() {
 					as = append(as, Action{Key: fmt.Sprintf("api:%03d:%s", idx, sc.Ops[idx].K), Weight: w, Run: func() {
 						if gate != "" && isOpen {
 							s.Probe("S_request_in_" + gate)
+						}
+						if sc.Ops[idx].AfterHist > 0 {
+							s.Probe("S_request_after_pause_of_some_length")
 						}
 						st.OpPos++
 						r.startOp(idx)
